@@ -36,6 +36,17 @@ pub fn big_list(r: &mut Rng, min: usize) -> Vec<String> {
         }
     }
     r.shuffle(&mut lines);
+    // every other list comes from two sources with different permission masks; some rules
+    // (scriptlet rules in particular) are present in both
+    if r.chance(1, 2) && lines.len() > 4 {
+        let at = 1 + r.below(lines.len() - 1);
+        let dups: Vec<String> = lines[..at].iter().filter(|l| l.contains("+js(") || r.chance(1, 12)).cloned().collect();
+        lines.insert(at, format!("{}{}", crate::mon::c08::SOURCE_MARKER, r.ps(&["0", "1", "3", "255"])));
+        for d in dups {
+            let pos = at + 1 + r.below(lines.len() - at);
+            lines.insert(pos, d);
+        }
+    }
     lines
 }
 
